@@ -33,7 +33,7 @@ static const char* MODS[] = {"vf", "vg", "csv"};
 
 struct C16 : Profile {
   const char* id() const override { return "C16"; }
-  long budget(const std::string& tier) const override { return tier == "thorough" ? 120000 : 6000; }
+  long budget(const std::string& tier) const override { return tier == "thorough" ? 120000 : 20000; }
   bool exhaustive(const std::string&) const override { return false; }
   std::string rule() const override {
     return "plan = history of up to 14 steps by the actors Host (grant name / clear grants / set trusted), T (trusted), U1, U2 (untrusted) and clones: import by name, "
